@@ -53,6 +53,9 @@ def classify(seg, idx):
         if ev["op"] == "amplify" and over and not bad:
             return "pb-repeated-field-amplification-%s" % ev["dec"]
         return "pb-%s-%s:%s" % (ev["dec"], ev["op"], why)
+    if e == "cls" and ev["kind"] == "bsblk":
+        c = ev["c"]
+        return "bsblk-%s-%s-%s-mhlen_%s:%s" % (c["shape"], c["ver"], c["hash"], c["mhlen"], why)
     if e == "cls":
         c = ev["c"]
         return "%s-%s:%s" % (ev["kind"], "-".join(str(c[k]) for k in sorted(c)), why)
@@ -134,7 +137,7 @@ def check(ctx):
             d = ev.get("dec", ev.get("kind", "ld"))
             if d not in worst or ev["alloc"] - ev["limit"] > worst[d]["alloc"] - worst[d]["limit"]:
                 worst[d] = {"alloc": ev["alloc"], "limit": ev["limit"], "op": ev.get("op", "")}
-    need = ["ld:", "cls:kadpid", "cls:rps", "cls:sub", "cls:msg", "cls:lis", "cls:dia", "nomax:", "pb:kademlia", "pb:bitswap", "pb:identify",
+    need = ["ld:", "cls:kadpid", "cls:bsblk", "cls:rps", "cls:sub", "cls:msg", "cls:lis", "cls:dia", "nomax:", "pb:kademlia", "pb:bitswap", "pb:identify",
             "pb:noise_payload", "pb:public_key", "pb:peer_id", "pb:multiaddr", "pb:mss_message", "pb:cid", "pb:bitswap_prefix",
             "pb:mss_listener", "pb:mss_dialer", "pb:length_delimited", "pb:payload_size", "pb:substream",
             "rt:kademlia", "rt:bitswap", "rt:identify", "rt:mss_message"]
@@ -216,7 +219,7 @@ def selftest(ctx):
             log("selftest impl-mode accepted->rejected at line %d -> %s" % (i + 1, "rejected at line %s" % r if r else "ACCEPTED"))
             ok &= r == i + 1
             break
-    for fault in ("ld-panic", "sub-overalloc", "rt-break", "unusable"):
+    for fault in ("ld-panic", "sub-overalloc", "rt-break", "unusable", "bsblk-panic"):
         harness(ctx, "decoders", base + ["--out", ctx.path("f.ndjson")], env={"VERIF_FAULT": fault})
         fb, fp, _ = partition(read_lines(ctx.path("f.ndjson")))
         fl = fb + fp
